@@ -30,7 +30,7 @@ for sid in ids:
         ok = r0 is not None and r0.returncode == 0 and r1 is not None and r1.returncode == 1 and t.returncode == 0 and "81 passed" in tail
         print(sid, "CONFIRMED" if ok else "REJECT", "clean_demo_rc=%s patched_demo_rc=%s tests=%s" % (getattr(r0, 'returncode', 'timeout'), getattr(r1, 'returncode', 'timeout'), tail))
         if ok:
-            dst = os.path.join("/verif/seeded", sid)
+            dst = os.path.join(os.environ.get("SEED_DST", "/verif/seeded"), sid)
             os.makedirs(dst, exist_ok=True)
             for f in ("patch.diff", "demo.py"):
                 shutil.copy(os.path.join(d, f), os.path.join(dst, f))
